@@ -2,6 +2,7 @@ package scen
 
 import (
 	"fmt"
+	"io"
 	"net/rpc"
 	"os"
 	"strings"
@@ -35,15 +36,15 @@ type liveOpts struct {
 	timeout        time.Duration
 	onExit         func()
 	preLine        func(r *scriptRunner)
-	stdout, stderr *pipeSrc
+	pStdout, pStderr io.Reader // what the plugin process writes to its stdout/stderr after serving begins
+	syncOut, syncErr io.Writer // ClientConfig.SyncStdout / SyncStderr
+	tlsAuto          bool
 }
-
-type pipeSrc struct{}
 
 func newLive(x *vs.Exec, o liveOpts) *liveClient {
 	lc := &liveClient{proto: o.proto, block: make(chan struct{})}
 	var ps plugin.PluginSet
-	so := serveOpts{exitDelay: o.exitDelay, ignoreQuit: o.ignoreQuit, onExit: o.onExit, preLine: o.preLine}
+	so := serveOpts{exitDelay: o.exitDelay, ignoreQuit: o.ignoreQuit, onExit: o.onExit, preLine: o.preLine, stdout: o.pStdout, stderr: o.pStderr}
 	if o.proto == "netrpc" {
 		lc.rp = &tagRPCPlugin{mk: func() *tagRPCServer { return &tagRPCServer{tag: "obj", block: lc.block} }}
 		ps = plugin.PluginSet{"p": lc.rp}
@@ -72,6 +73,8 @@ func newLive(x *vs.Exec, o liveOpts) *liveClient {
 		RunnerFunc:          lc.r.runnerFunc,
 		GRPCBrokerMultiplex: o.proto == "grpcmux",
 		Managed:             o.managed,
+		SyncStdout:          o.syncOut,
+		SyncStderr:          o.syncErr,
 		UnixSocketConfig:    &plugin.UnixSocketConfig{TempDir: os.Getenv("TMPDIR")},
 	}
 	lc.cl = plugin.NewClient(cfg)
